@@ -14,9 +14,14 @@
   `C.closure`, `T.closure` (`GraphData::_closure` of condition / target) and `V.wn` (the source
   vertex's `_waiting_num`, i.e. `GraphVertex::ready` / the batch subtraction of
   `GraphVertex::activate`), followed by the thread-local code up to the next such operation.
-  Plain accesses (`_established`, `_ready`, `GraphData::_active`, the condition's value) are folded
-  into the step of the preceding atomic operation; reading the condition's value before the
-  condition is sealed sets the ghost flag `bad`.
+  The plain (non-atomic) code that follows a counter RMW — `check_established()`, the stores to
+  `_established` / `_ready`, the `switch` — is a SEPARATE step (`sw`, `est1`, `chk`, `aft`; label
+  `ev plain`): other actors may run between the RMW and the flag store, exactly the window in
+  which a thread that sees the counter at its terminal value can still see a stale `_established`.
+  (The harness registers the two flags as `vrt_payload` with `vrt_payload_sched(1)`, so VRT
+  deschedules threads there.)  Plain accesses that follow an atomic *load* (`_ready = _target->ready()`,
+  `GraphData::_active` in `trigger`) stay folded into that load's step.  Reading the condition's
+  value before the condition is sealed sets the ghost flag `bad`.
 
   The configuration is finite: `hasCond`, and `b` = "the condition's value (empty ⇒ false) equals
   `_establish_value`".  The same `step` function serves (a) the exhaustive proof
@@ -42,9 +47,11 @@ inductive Actor | A | C | T
 /-- program counter of `A` (the thread running `GraphVertex::activate` → `GraphDependency::activate`) -/
 inductive APc
   | idle        -- `_waiting_num.fetch_add(inc)` not done yet
+  | sw (n : Nat) -- plain code after the `fetch_add` that produced `n - 3`: the `switch`, `check_established` / `_established = true`
   | ldT0        -- case 0, established: `_ready = _target->ready()`  (acquire load of T.closure)
   | fin         -- `activate` returned 1: the vertex's batch `fetch_sub(finished)`
   | ldC1        -- case 1 with a condition: `_condition->ready()`
+  | est1        -- case 1, condition ready: `check_established()` (plain), then `_target->trigger`
   | trigC       -- `_condition->trigger`: `ready()` inside `trigger` (first activation of the data)
   | trigT       -- `_target->trigger`
   | inv         -- the vertex became runnable in this thread: `invoke` → processor
@@ -55,6 +62,8 @@ inductive CPc
   | idle        -- `release`: `_closure.load(relaxed)`
   | cas         -- `_closure.compare_exchange_weak(closure, SEALED)`
   | sub1        -- `ready(condition)`: first `fetch_sub`
+  | chk (n : Nat) -- plain code after the first `fetch_sub` that produced `n - 3`: `check_established()` and the branch
+  | aft (n : Nat) -- plain code after the second `fetch_sub`: the terminal test reading `established()`
   | actT        -- established and new value 1: `recursive_activate(target)` → `trigger` → `ready()`
   | sub2        -- not established and new value ≠ 0: second `fetch_sub`
   | rdyLd       -- new value 0: `_ready = established() && _target->ready()`
@@ -64,7 +73,9 @@ inductive CPc
   deriving DecidableEq, Repr, Inhabited
 
 inductive TPc
-  | idle | cas | sub | notify | inv | done
+  | idle | cas | sub
+  | chk         -- plain code after a `fetch_sub` that produced 0: `_ready = check_established()`
+  | notify | inv | done
   deriving DecidableEq, Repr, Inhabited
 
 /-- `cnt` is `_waiting_num + 3` and `vwn` is the vertex's `_waiting_num + 2` (so that the model can
@@ -147,6 +158,8 @@ def decCnt (s : State) (k : Nat) : State :=
   if s.cnt < k then { s with bad := true } else { s with cnt := s.cnt - k }
 
 def ordAR : Ord := .acqrel
+/-- label of a step that performs only plain (non-atomic) accesses: nothing appears in the trace -/
+def plainAct : Act := .ev ["plain"]
 
 /-- One atomic action of actor `x`.  `sp`: a weak CAS that would succeed fails spuriously. -/
 def step (s : State) (x : Actor) (sp : Bool) : Option (State × Act) :=
@@ -155,8 +168,8 @@ def step (s : State) (x : Actor) (sp : Bool) : Option (State × Act) :=
     match s.a with
     | .idle =>
       let inc := if s.cfg.hasCond then incCond else incNoCond
-      let new := s.cntI + inc
-      some (aSwitch { s with cnt := s.cnt + inc } new, .rmw "add" "dep.wn" 0 ordAR (u64 s.cntI) inc)
+      some ({ s with cnt := s.cnt + inc, a := .sw (s.cnt + inc) }, .rmw "add" "dep.wn" 0 ordAR (u64 s.cntI) inc)
+    | .sw n => some (aSwitch s ((n : Int) - 3), plainAct)
     | .ldT0 => some ({ s with rdy := s.tgtSealed, a := .fin }, .ld "T.closure" 0 .acq (closureVal s.tgtSealed))
     | .fin =>
       let (s', hit) := vSub s
@@ -165,10 +178,10 @@ def step (s : State) (x : Actor) (sp : Bool) : Option (State × Act) :=
             .rmw "sub" "V.wn" 0 ordAR (u64 s.vwnI) 1)
     | .ldC1 =>
       let l := Act.ld "C.closure" 0 .acq (closureVal s.condSealed)
-      if !s.condSealed then some (aTriggerC s, l)
-      else
-        let (s', e) := checkEst s
-        some (if e then aTriggerT s' else { s' with a := .done }, l)
+      if !s.condSealed then some (aTriggerC s, l) else some ({ s with a := .est1 }, l)
+    | .est1 =>
+      let (s', e) := checkEst s
+      some (if e then aTriggerT s' else { s' with a := .done }, plainAct)
     | .trigC => some ({ s with a := .done }, .ld "C.closure" 0 .acq (closureVal s.condSealed))
     | .trigT => some ({ s with a := .done }, .ld "T.closure" 0 .acq (closureVal s.tgtSealed))
     | .inv => some ({ s with invoked := s.invoked + 1, a := .done }, .ev ["process", toString s.rdy.toNat])
@@ -181,21 +194,23 @@ def step (s : State) (x : Actor) (sp : Bool) : Option (State × Act) :=
       if sp then some (s, .cas "C.closure" 0 true .acqrel .acq 0 sealedClosure false 0)
       else some ({ s with condSealed := true, c := .sub1 }, .cas "C.closure" 0 true .acqrel .acq 0 sealedClosure true 0)
     | .sub1 =>
-      let new := s.cntI - readyDec
-      let l := Act.rmw "sub" "dep.wn" 0 ordAR (u64 s.cntI) readyDec
-      let s := decCnt s readyDec
+      let s' := decCnt s readyDec
+      some ({ s' with c := .chk s'.cnt }, .rmw "sub" "dep.wn" 0 ordAR (u64 s.cntI) readyDec)
+    | .chk n =>
+      let new : Int := (n : Int) - 3
       let (s, e) := checkEst s
       if e then
         if new = readyActivateTargetAt then
           let s := { s with actT := s.actT + 1 }
-          some (if s.tActive then { s with c := .done } else { s with tActive := true, c := .actT }, l)
-        else some (cAfterSub s new, l)
-      else if new ≠ readySecondSubUnless then some ({ s with c := .sub2 }, l)
-      else some (cAfterSub s new, l)
+          some (if s.tActive then { s with c := .done } else { s with tActive := true, c := .actT }, plainAct)
+        else some (cAfterSub s new, plainAct)
+      else if new ≠ readySecondSubUnless then some ({ s with c := .sub2 }, plainAct)
+      else some (cAfterSub s new, plainAct)
     | .actT => some ({ s with c := .done }, .ld "T.closure" 0 .acq (closureVal s.tgtSealed))
     | .sub2 =>
-      let new := s.cntI - readyDec2
-      some (cAfterSub (decCnt s readyDec2) new, .rmw "sub" "dep.wn" 0 ordAR (u64 s.cntI) readyDec2)
+      let s' := decCnt s readyDec2
+      some ({ s' with c := .aft s'.cnt }, .rmw "sub" "dep.wn" 0 ordAR (u64 s.cntI) readyDec2)
+    | .aft n => some (cAfterSub s ((n : Int) - 3), plainAct)
     | .rdyLd => some ({ s with rdy := s.tgtSealed, c := .notify }, .ld "T.closure" 0 .acq (closureVal s.tgtSealed))
     | .notify =>
       let (s', hit) := vSub s
@@ -214,10 +229,10 @@ def step (s : State) (x : Actor) (sp : Bool) : Option (State × Act) :=
       let new := s.cntI - readyDec
       let l := Act.rmw "sub" "dep.wn" 0 ordAR (u64 s.cntI) readyDec
       let s := decCnt s readyDec
-      if new = readyNotifyAt then
-        let (s, e) := checkEst s
-        some ({ s with rdy := e, t := .notify }, l)
-      else some ({ s with t := .done }, l)
+      if new = readyNotifyAt then some ({ s with t := .chk }, l) else some ({ s with t := .done }, l)
+    | .chk =>
+      let (s, e) := checkEst s
+      some ({ s with rdy := e, t := .notify }, plainAct)
     | .notify =>
       let (s', hit) := vSub s
       let s' := { s' with notified := s'.notified + 1 }
